@@ -256,6 +256,26 @@ def worker(idx, nworkers, tier, seed, extra):
                         _raw_client(w, {"user": user, "pw": pw, "cuser": user, "cpw": pw, "salt": salt_.hex(), "g": g, "n": M.to_le(n_).hex(),
                                         "b": M.to_le(1).hex(), "a": a.hex(), "Bmode": "honest", "B": Bv})
                         mon.count("tiny_modulus_calls")
+        # ---- the standard group with server keys that make the base of the client's power a small number of either sign
+        #      (B = 3v + d, d = -24..24: -g, -1, 0, +1, +g ... ), and the same shifted by N; odd and even private keys
+        w.kind = "small_bases_of_either_sign"
+        if idx % 4 == 3 or nworkers < 4:
+            user, pw = c01.rand_cred(rnd), c01.rand_cred(rnd)
+            for _ in range(40):
+                # an account whose 3v + d still fits in 32 bytes, so that the key can be sent unreduced and the base is d itself
+                salt_ = c03.rb(rnd, 32)
+                v_ = M.calc_v(M.norm(user), M.norm(pw), salt_)
+                if 30 < 3 * v_ < 2 ** 256 - 30:
+                    break
+            for d in range(-24, 25):
+                for shift in (0, -M.N, M.N):
+                    Bv = 3 * v_ + d + shift
+                    if Bv in (0, M.N) or Bv >= 2 ** 256 or Bv <= 0:
+                        continue
+                    for a in (M.to_le(rnd.getrandbits(255) | 1), M.to_le(rnd.getrandbits(255) << 1)):
+                        _raw_client(w, {"user": user, "pw": pw, "cuser": user, "cpw": pw, "salt": salt_.hex(), "g": 7, "n": M.N_LE.hex(),
+                                        "b": M.to_le(1).hex(), "a": a.hex(), "Bmode": "honest", "B": Bv})
+                        mon.count("small_base_calls")
         # ---- the same account (same x) and generator under different announced moduli, one after the other
         w.kind = "same_account_other_modulus"
         for rep_ in range(2 * scale):
